@@ -16,13 +16,13 @@ def dispatch (d : DState) (s : Step) : DState :=
   match s.op.name with
   | "powercap" => { d with acc := stepPowercap a s }
   | "keyorder" | "diff" | "accum" | "cinit" | "applycc" =>
-    if d.stream == "consumer" then
+    if d.stream == "consumer" || d.stream == "crewards" then
       let r := stepCons d.cd a s
       { d with cd := r.1, acc := r.2 }
     else
       let r := stepValSet d.vs a s
       { d with vs := r.1, acc := r.2 }
-  | "cbegin" | "cend" | "crecvvsc" | "cslash" | "cack" | "cqueuematured" =>
+  | "cbegin" | "cend" | "crecvvsc" | "cslash" | "cack" | "cqueuematured" | "cfees" | "crefund" | "ctch" =>
     let r := stepCons d.cd a s
     { d with cd := r.1, acc := r.2 }
   | _ =>
